@@ -10,6 +10,7 @@ import (
 	"time"
 
 	"github.com/sheerbytes/sheerbytes/internal/transfer"
+	"github.com/sheerbytes/sheerbytes/internal/transferquic"
 	"github.com/sheerbytes/sheerbytes/pkg/protocol"
 )
 
@@ -72,3 +73,19 @@ func VerifAuthenticateTransport(ctx context.Context, conn transfer.Conn, joinCod
 }
 
 const VerifAuthLabel = authLabel
+
+// the receiver's connection selection (runTransfer: acceptAuthenticated / acceptExtraConns)
+func VerifAcceptAuthenticated(ctx context.Context, t *transferquic.QUICTransport, joinCode string) <-chan transfer.Conn {
+	r := &snapshotReceiver{joinCode: joinCode, logger: slog.New(slog.NewTextHandler(io.Discard, nil))}
+	return r.acceptAuthenticated(ctx, t)
+}
+
+func VerifAcceptExtraConns(ctx context.Context, accepted <-chan transfer.Conn, joinCode string, extra int) ([]transfer.Conn, error) {
+	r := &snapshotReceiver{joinCode: joinCode, logger: slog.New(slog.NewTextHandler(io.Discard, nil))}
+	return r.acceptExtraConns(ctx, accepted, extra)
+}
+
+const (
+	VerifRoleSender   = authRoleSender
+	VerifRoleReceiver = authRoleReceive
+)
